@@ -7,11 +7,10 @@
 (* independently of the machine; Expected(conf) - the declarative reading  *)
 (* used to judge real runs - is tied to the machine at terminal states.    *)
 (***************************************************************************)
-EXTENDS BVPipeline, TLC
+EXTENDS Pipeline
 CONSTANTS Tools,     \* {"git"} or {"git", "hg"}
           Extras     \* {FALSE} or BOOLEAN: values of --ignore-vcs-tag and of the uniqueness check
-VARIABLES conf, lvl, pc, log, exit, filesChanged
-vars == <<conf, lvl, pc, log, exit, filesChanged>>
+vars == pvars
 
 Init == /\ conf = [vcs |-> "git"] /\ lvl = 0 /\ pc = "choose" /\ log = <<>> /\ exit = 0 /\ filesChanged = FALSE
 Choose ==
@@ -25,41 +24,7 @@ Choose ==
   /\ pc' = IF lvl' = 5 THEN "merge" ELSE "choose"
   /\ UNCHANGED <<log, exit, filesChanged>>
 
-Goto(p) == pc' = p /\ UNCHANGED <<conf, lvl>>
-Emit(name) == log' = Append(log, name)
-Fail == exit' = 1 /\ pc' = "done" /\ UNCHANGED <<conf, lvl>>
-Fails(name) == conf.failat = name
-Merge == pc = "merge" /\ (IF Contradiction(conf) THEN Fail /\ UNCHANGED <<log, filesChanged>> ELSE Goto("fetch") /\ UNCHANGED <<log, exit, filesChanged>>)
-Fetch == pc = "fetch" /\ IF conf.fetch /\ conf.remote /\ ~conf.ignore
-                         THEN Emit("fetch") /\ UNCHANGED filesChanged /\ (IF Fails("fetch") THEN Fail ELSE Goto("lstags") /\ UNCHANGED exit)
-                         ELSE Goto("lstags") /\ UNCHANGED <<log, exit, filesChanged>>
-EmitTags == log' = (IF log # <<>> /\ log[Len(log)] = "lstags" THEN log ELSE Append(log, "lstags"))     \* consecutive listings count once
-LsTags == pc = "lstags" /\ UNCHANGED filesChanged /\
-          (IF conf.ignore THEN Goto("gate") /\ UNCHANGED <<log, exit>>
-           ELSE EmitTags /\ (IF Fails("lstags") THEN Fail ELSE Goto("gate") /\ UNCHANGED exit))
-\* the gate lists the tags of all branches once more when uniqueness is demanded
-Gate == pc = "gate" /\ UNCHANGED filesChanged /\
-        (IF conf.unique \/ conf.ignore THEN EmitTags /\ (IF Fails("lstags") THEN Fail ELSE Goto("aftergate") /\ UNCHANGED exit)
-         ELSE Goto("aftergate") /\ UNCHANGED <<log, exit>>)
-AfterGate == pc = "aftergate" /\ UNCHANGED <<log, exit, filesChanged>> /\ Goto(IF conf.dry THEN "done" ELSE IF MCommit(conf) THEN "status" ELSE "write")
-Status == pc = "status" /\ Emit("status") /\ UNCHANGED filesChanged
-          /\ (IF Fails("status") \/ (conf.dirty /\ ~conf.allow) THEN Fail ELSE Goto("write") /\ UNCHANGED exit)
-Write == pc = "write" /\ filesChanged' = TRUE /\ UNCHANGED <<log, exit>> /\ Goto(IF MCommit(conf) THEN "prehook" ELSE "done")
-PreHook == pc = "prehook" /\ UNCHANGED filesChanged /\
-           (IF conf.pre = "absent" THEN Goto("add") /\ UNCHANGED <<log, exit>>
-            ELSE Emit("prehook") /\ (IF conf.pre = "fail" THEN Fail ELSE Goto("add") /\ UNCHANGED exit))
-Add == pc = "add" /\ Emit("add") /\ UNCHANGED filesChanged /\ (IF Fails("add") THEN Fail ELSE Goto("commit") /\ UNCHANGED exit)
-Commit == pc = "commit" /\ Emit("commit") /\ UNCHANGED filesChanged /\ (IF Fails("commit") THEN Fail ELSE Goto("posthook") /\ UNCHANGED exit)
-PostHook == pc = "posthook" /\ UNCHANGED filesChanged /\
-           (IF conf.post = "absent" THEN Goto("tag") /\ UNCHANGED <<log, exit>>
-            ELSE Emit("posthook") /\ (IF conf.post = "fail" THEN Fail ELSE Goto("tag") /\ UNCHANGED exit))
-Tag == pc = "tag" /\ UNCHANGED filesChanged /\
-       (IF ~MTag(conf) THEN Goto("push") /\ UNCHANGED <<log, exit>>
-        ELSE Emit(TagName(conf)) /\ (IF Fails("tag") THEN Fail ELSE Goto("push") /\ UNCHANGED exit))
-Push == pc = "push" /\ UNCHANGED filesChanged /\
-       (IF ~MPush(conf) \/ ~conf.remote THEN Goto("done") /\ UNCHANGED <<log, exit>>
-        ELSE Emit(PushName(conf)) /\ (IF Fails("push") THEN Fail ELSE Goto("done") /\ UNCHANGED exit))
-Next == Choose \/ Merge \/ Fetch \/ LsTags \/ Gate \/ AfterGate \/ Status \/ Write \/ PreHook \/ Add \/ Commit \/ PostHook \/ Tag \/ Push
+Next == Choose \/ Step
 Spec == Init /\ [][Next]_vars
 
 \* ---------- the property, on the log ----------
@@ -84,5 +49,5 @@ StopAtFailure == /\ (In("prehook") /\ conf.pre = "fail" => ~In("add"))
                  /\ (conf.failat = "status" /\ In("status") => ~filesChanged)
 StepsAsConfigured == lvl = 5 => Ordered /\ NoCommitNoTagPush /\ NoFetch /\ DryInert /\ RejectFirst /\ OnlyIfEnabled /\ StopAtFailure
 \* the declarative reading agrees with the machine
-ExpectedAgrees == (lvl = 5 /\ pc = "done") => LET e == Expected(conf) IN e.log = log /\ e.exit0 = (exit = 0) /\ e.changed = filesChanged
+ExpectedAgrees == (lvl = 5 /\ pc = "done") => LET e == Expected(conf) IN e.log = CollapseTags(log) /\ e.exit0 = (exit = 0) /\ e.changed = filesChanged
 =============================================================================
